@@ -28,7 +28,7 @@ def eval_with_defs(root, proof_files, evals, tag):
 
 
 P['C02'] = dict(
-    rule='x25: every 2-byte prefix (reaches each of the 2^16 register states once) and third bytes (3 random per state in quick, all 256 in thorough), random strings hashed in random splits; gate: valid frames of sampled common-dialect messages and of every message of a user-defined dialect (one-element arrays, one-character strings, extensions, enums, the 255-byte message; CRC_EXTRA of each definition compared first), v1 and v2, with every single-bit flip (a random third of them on the user dialect), byte substitutions and multi-byte damage, read by a dialect-configured frame.Reader. A case is non-trivial when the model output is not a bare rejection; distinct = distinct case lines.',
+    rule='x25: every 2-byte prefix (reaches each of the 2^16 register states once) and third bytes (3 random per state in quick, all 256 in thorough), random strings hashed in random splits; gate: valid frames of sampled common-dialect messages and of every message of a user-defined dialect (one-element arrays, one-character strings, extensions, enums, the 255-byte message; CRC_EXTRA of each definition compared first), v1 and v2, with every single-bit flip (a random third of them on the user dialect), byte substitutions and multi-byte damage, read by a dialect-configured frame.Reader. A case is non-trivial when the model output is not a bare rejection; distinct = distinct case lines.; the user dialect has messages with ids 254, 255, 256, 65535, 65536 and 2^24-1, and a missing codec for a message of the dialect is a verdict of its own',
     assumptions=['the transport returns data or an error per Read call, never both',
                  'model of bufio.Reader (Model/Stream.v) stands for the Go standard library'],
     mismatch_meaning='the implementation\'s checksum / gate result differs from the model proved equal to CRC-16/MCRF4XX and to the gate specification: a concrete input on which the property fails',
@@ -47,12 +47,12 @@ P['C06'] = dict(
     mismatch_meaning='a frame was delivered / refused / signed differently from the model proved to implement the signing rule: concrete failing frame',
 )
 P['C07'] = dict(
-    rule='all sequences over the timestamp alphabet {0,1,5,999999,10^6,10^6+1,2*10^6-1,2*10^6,2*10^6+1,2^47,2^48-10^6-1,2^48-10^6,2^48-1} up to length 3 (quick) / 4 (thorough), random walks of length 4..15 with steps around the window edge; every frame correctly signed; result sequence of a keyed frame.Reader compared with the model; outgoing timestamps of keyed writers bracketed by clock reads and checked non-decreasing. Non-trivial: at least one frame accepted.',
+    rule='all sequences over the timestamp alphabet {0,1,5,999999,10^6,10^6+1,2*10^6-1,2*10^6,2*10^6+1,2^47,2^48-10^6-1,2^48-10^6,2^48-1} up to length 3 (quick) / 4 (thorough), random walks of length 4..15 with steps around the window edge; every frame correctly signed; result sequence of a keyed frame.Reader compared with the model; outgoing timestamps of keyed writers bracketed by clock reads and checked non-decreasing. Non-trivial: at least one frame accepted.; the same reader hearing several senders (system / component / link ids differ): all pairs over the boundary alphabet from two senders, random walks over six senders — one newest timestamp whoever sent it',
     assumptions=['time.Since is monotone (Go monotonic clock)'],
     mismatch_meaning='the reader accepted or refused a correctly signed frame differently from the proved window function: concrete timestamp history',
 )
 P['C09'] = dict(
-    rule='all 54 small initialisation configurations; write histories of 300..700 messages (beyond the 256 wrap) mixing decoded and raw messages, rejected writes (raw id outside the dialect, ids above 255 on v1) at random positions, over random configurations (version, system id, component id incl. 0, key, link id) through streamwriter.Writer and frame.Writer.WriteMessage; every emitted byte string (header fields, sequence number, checksum, signature) must equal the model\'s. Non-trivial: model output not a bare rejection.; plus histories of 10..50 messages written through a real Node (custom endpoint, OutVersion 1 and 2, random ids) whose wire bytes must equal the same model\'s',
+    rule='all 54 small initialisation configurations; write histories of 300..700 messages (beyond the 256 wrap) mixing decoded and raw messages, rejected writes (raw id outside the dialect, ids above 255 on v1) at random positions, over random configurations (version, system id, component id incl. 0, key, link id) through streamwriter.Writer and frame.Writer.WriteMessage; every emitted byte string (header fields, sequence number, checksum, signature) must equal the model\'s. Non-trivial: model output not a bare rejection.; plus histories of 10..50 messages written through a real Node (custom endpoint, OutVersion 1 and 2, random ids) whose wire bytes must equal the same model\'s; the 54 initialisation configurations also through Node.Initialize',
     assumptions=[],
     mismatch_meaning='an originated frame differs from the model proved to carry the configured identity, gapless sequence numbers and correct checksum: concrete write history',
 )
@@ -84,13 +84,14 @@ def find_bad_c17(root):
                          ['Eval vm_compute in (map gd_name (filter (fun gd => negb (dialect_ok gd)) shipped)).',
                           'Eval vm_compute in (filter (fun e => negb (const_agrees e)) enum_consts).',
                           'Eval vm_compute in (golden_mismatches "common").',
+                          'Eval vm_compute in snapshot_mismatches.',
                           'Eval vm_compute in (filter (fun e1 => negb (forallb (same_msg_same_type e1) (dedupe all_entries []))) (dedupe all_entries [])).'], 'dialects')
-    if out.count('= []') >= 4 and not w:
+    if out.count('= []') >= 5 and not w:
         return None
-    return ((w or '') + ' | dialects failing init / disagreeing enum constants / golden CRC mismatches / same id+name with different Go types: ' + out)[:2500]
+    return ((w or '') + ' | dialects failing init / disagreeing enum constants / golden CRC mismatches / released messages whose CRC_EXTRA changed (dialect, id, type) / same id+name with different Go types: ' + out)[:2500]
 
 P['C17'] = dict(
-    rule='all 19 shipped dialects: Initialize, CRCExtra of every message, GetMessage for every defined id, its neighbours +-1, 300 (quick) / 20000 (thorough) random ids of the 2^24 space and the ids 2^24-1, 2^24, 2^32-1 (checking the returned codec belongs to the message with that id); 120 / 2000 user dialects built from random subsets with injected duplicate ids and malformed structs. Non-trivial: lookup found a codec or initialisation succeeded.',
+    rule='all 19 shipped dialects: Initialize, CRCExtra of every message, GetMessage for every defined id, its neighbours +-1, 300 (quick) / 20000 (thorough) random ids of the 2^24 space and the ids 2^24-1, 2^24, 2^32-1 (checking the returned codec belongs to the message with that id); 120 / 2000 user dialects built from random subsets with injected duplicate ids and malformed structs. Non-trivial: lookup found a codec or initialisation succeeded.; obligation on the regenerated tables: 395 released messages (id, Go type name) keep the CRC_EXTRA of Spec/CrcSnapshot.v in every shipped dialect other than development',
     assumptions=['Go map modelled as an association list (order irrelevant: ids unique after Initialize)'],
     mismatch_meaning='dialect initialisation or id lookup differs from the model proved correct for every id: concrete dialect and id',
     find_bad=find_bad_c17,
@@ -125,7 +126,7 @@ def find_bad_c19(root):
     return 'bitmask enums whose zero / constants / union do not round-trip (with the failing values), then ordinary enums with inconsistent maps: ' + out[:2500]
 
 P['C19'] = dict(
-    rule='every enum type of the shipped dialects with text methods (registry regenerated from the sources on every run): zero, every defined constant, for bitmask enums random combinations of the single-bit flags and the union of all flags, for ordinary enums random/boundary unnamed values over the whole uint64 range incl. 2^63-1, 2^63, 2^63+1, 2^64-1; MarshalText then UnmarshalText compared with the model (text and value); parsing of garbage, numerals, names and name combinations. Non-trivial: the round trip produced a value.; every parse also goes into a variable that already holds other bits; eight enums of a dialect generated on the spot by the real generator (plain, bitmask, a flag above the entry count, a bitmask and an ordinary enum of an included definition extended by the including one) are compiled with a probe and round-tripped the same way',
+    rule='every enum type of the shipped dialects with text methods (registry regenerated from the sources on every run): zero, every defined constant, for bitmask enums random combinations of the single-bit flags and the union of all flags, for ordinary enums random/boundary unnamed values over the whole uint64 range incl. 2^63-1, 2^63, 2^63+1, 2^64-1; MarshalText then UnmarshalText compared with the model (text and value); parsing of garbage, numerals, names and name combinations. Non-trivial: the round trip produced a value.; every parse also goes into a variable that already holds other bits; eight enums of a dialect generated on the spot by the real generator (plain, bitmask, a flag above the entry count, a bitmask and an ordinary enum of an included definition extended by the including one) are compiled with a probe and round-tripped the same way; the generated dialect also has zero-padded decimal values (010, 0100, 09; flags 016, 032)',
     assumptions=['Go maps labels_X / values_X are read from the source by go/ast and modelled as association lists'],
     mismatch_meaning='text rendering or parsing of an enum value differs from the model proved to round-trip: concrete enum type and value',
     find_bad=find_bad_c19,
@@ -199,7 +200,7 @@ P['C12'] = dict(
 
 P['C14'] = dict(
     bin='scen', compare=cmp_scen,
-    rule='(1) pkg/timednetconn over a recording net.Conn: random Read/Write sequences, the recorded call trace (deadline armed before every call, deadline value within 20 percent of the configured timeout) compared with the model; (2) serial endpoint over fake devices (verif hook), reconnect period 60 ms: scripts of 2..6 outcomes (open failure / open ok then read error with a scripted cause): observed trace of open attempts, back-offs (inferred from gaps >= 0.7 period), open and close events with their cause compared with the provider model, two channels open at once flagged; (3) custom endpoint: close event carries the injected cause; (4) TCP client against a server that accepts, sends a frame and hangs up k times after a period with nothing listening: open/close alternation compared with the model; (5) TCP and UDP servers, idle timeout 200 ms: two peers get their own channels, the silent one is closed by a timeout inside [0.9 idle, 2 idle + 1.5 s], the talking one is not, a third peer is still accepted. Non-trivial: a trace with at least one channel.; in the serial scripts the devices with an odd cause have a Write stuck in the transport at the moment the read fails; a TCP client against a server whose accept queue is full (listen backlog 0): attempts end in dial time-outs, then the server accepts and the client must connect; (6) idle expiry against the timed model: a peer of a TCP / UDP server sends bursts with gaps of 60..340 ms (idle time-out 400 ms) and stops: the observed closing time must lie in [model - 60 ms, model + 600 ms] where the model gets the measured arrival times; the timednetconn call trace with scripted results of the wrapped connection (failed, timed-out, partial): handed back unchanged, next call made afresh; a healthy TCP client channel fed valid frames, junk, a wrong checksum and v1 frames with a right checksum and a payload of the wrong length: parse errors only, no close event, one connection',
+    rule='(1) pkg/timednetconn over a recording net.Conn: random Read/Write sequences, the recorded call trace (deadline armed before every call, deadline value within 20 percent of the configured timeout) compared with the model; (2) serial endpoint over fake devices (verif hook), reconnect period 60 ms: scripts of 2..6 outcomes (open failure / open ok then read error with a scripted cause): observed trace of open attempts, back-offs (inferred from gaps >= 0.7 period), open and close events with their cause compared with the provider model, two channels open at once flagged; (3) custom endpoint: close event carries the injected cause; (4) TCP client against a server that accepts, sends a frame and hangs up k times after a period with nothing listening: open/close alternation compared with the model; (5) TCP and UDP servers, idle timeout 200 ms: two peers get their own channels, the silent one is closed by a timeout inside [0.9 idle, 2 idle + 1.5 s], the talking one is not, a third peer is still accepted. Non-trivial: a trace with at least one channel.; in the serial scripts the devices with an odd cause have a Write stuck in the transport at the moment the read fails; a TCP client against a server whose accept queue is full (listen backlog 0): attempts end in dial time-outs, then the server accepts and the client must connect; (6) idle expiry against the timed model: a peer of a TCP / UDP server sends bursts with gaps of 60..340 ms (idle time-out 400 ms) and stops: the observed closing time must lie in [model - 60 ms, model + 600 ms] where the model gets the measured arrival times; the timednetconn call trace with scripted results of the wrapped connection (failed, timed-out, partial): handed back unchanged, next call made afresh; a healthy TCP client channel fed valid frames, junk, a wrong checksum and v1 frames with a right checksum and a payload of the wrong length: parse errors only, no close event, one connection; a UDP server with four peers whose datagrams start with a frame, with junk before a frame, never on a frame boundary (a sender joined mid-stream), with a junk byte before every frame: each gets its channel and at least three of its frames',
     assumptions=['deadline enforcement is the operating system\'s; expiry is checked inside a tolerant bracket (a deadline firing inside a frame surfaces as a parse error first, the next read closes the channel)', 'back-offs are observed through timing with tolerance'],
     mismatch_meaning='the observed lifecycle of channels (attempts, back-offs, open/close events and causes, idle expiry) differs from the provider model proved to reconnect after every failure with at most one channel open',
 )
